@@ -233,3 +233,45 @@ func TestVerifC16Lengths(t *testing.T) {
 		}
 	}
 }
+
+// TestVerifC16Procs: key generation under processor settings other than the default - the number of
+// safe-prime workers follows the runtime's setting, and generation has to terminate with every one.
+func TestVerifC16Procs(t *testing.T) {
+	r := vkit.Start(t, "C16", "processor-settings", 200*time.Second, 600*time.Second)
+	defer r.Finish()
+	n := runtime.NumCPU()
+	r.Rule = fmt.Sprintf("GenerateKeyPair at Ln=128 and 140 with GOMAXPROCS in {1, 2, 3, NumCPU+1} (NumCPU = %d under the runner's affinity mask), 2 generations each; non-trivial = distinct (setting, Ln, repetition); oracle: returns (no evaluation completed for 150 s => non-termination), well-formedness predicate, no goroutine left running", n)
+	cur := ""
+	defer r.Watch(150*time.Second, func() string { return cur })()
+	old := runtime.GOMAXPROCS(0)
+	defer runtime.GOMAXPROCS(old)
+	seen := map[int]bool{}
+	for _, procs := range []int{1, 2, 3, n + 1} {
+		if seen[procs] {
+			continue
+		}
+		seen[procs] = true
+		runtime.GOMAXPROCS(procs)
+		for _, ln := range []uint{128, 140} {
+			for rep := 0; rep < 2; rep++ {
+				cur = fmt.Sprintf("GenerateKeyPair at Ln=%d with GOMAXPROCS=%d (NumCPU=%d)", ln, procs, n)
+				param := c16Params(ln)
+				baseline := runtime.NumGoroutine()
+				sk, pk, err := GenerateKeyPair(param, 2, 1, time.Unix(1900000000, 0))
+				r.Eval()
+				r.Nontrivial(fmt.Sprintf("procs|%d|%d|%d", procs, ln, rep))
+				r.Outcome(fmt.Sprintf("GOMAXPROCS=%d:generated=%v", procs, err == nil))
+				if err != nil {
+					r.Violate("C16|generation-failed|processor-setting", fmt.Sprintf("%s: %v", cur, err), cur)
+					continue
+				}
+				if bad := c16KeyPredicate(sk, pk, param, 2); len(bad) > 0 {
+					r.Violate("C16|malformed-key|"+bad[0], fmt.Sprintf("%s: %v", cur, bad), cur)
+				}
+				if m := c16WaitGoroutines(baseline); m > baseline {
+					r.Violate("C16|worker-left-running|free-running", fmt.Sprintf("%s: %d goroutines before, %d after", cur, baseline, m), cur)
+				}
+			}
+		}
+	}
+}
